@@ -79,6 +79,23 @@ class Frame:
         self.lambdas = {}
 
 
+def _live_sources(it):
+    """Texts of the objects a `for` iterates *live* (not through a snapshot such as list(..) / sorted(..))."""
+    out = set()
+    if isinstance(it, (ast.Name, ast.Attribute, ast.Subscript)):
+        out.add(norm(it))
+    elif isinstance(it, ast.BoolOp):
+        for v in it.values:
+            out |= _live_sources(v)
+    elif isinstance(it, ast.Call):
+        if isinstance(it.func, ast.Name) and it.func.id in ("enumerate", "zip", "iter", "reversed"):
+            for a in it.args:
+                out |= _live_sources(a)
+        elif isinstance(it.func, ast.Attribute) and it.func.attr in ("items", "keys", "values") and not it.args:
+            out |= _live_sources(it.func.value)
+    return out
+
+
 def env_join(a, b):
     if a is None:
         return b
@@ -431,7 +448,7 @@ class InterpBase:
             loop_env[LT] = True
         exit_env = None if it.nonempty else dict(env)
         for _ in range(6):
-            rec = {"brk": None, "cont": None}
+            rec = {"brk": None, "cont": None, "src": _live_sources(st.iter), "enum": enum_source(st.iter)}
             frame.loops.append(rec)
             body_env = self.assign(st.target, el, dict(loop_env), frame, st)
             out = self.exec_block(st.body, body_env, frame)
@@ -618,6 +635,11 @@ class InterpBase:
         if isinstance(target, ast.Subscript):
             base = self.ev(target.value, env, frame)
             k = self.ev(target.slice, env, frame)
+            if any(norm(target.value) in rec.get("src", ()) for rec in frame.loops) \
+                    and (base.types & {"dict"} or (base.is_json and base.taint == 2)) and not (k.kof is not None and k.kof == norm(target.value) and not any(rec.get("enum") == k.kof for rec in frame.loops)) \
+                    and not (k.has_const and isinstance(target.value, ast.Name) and (target.value.id, k.const_value()) in (env.get("$keys") or ())):
+                # `for i, x in enumerate(d): d[i] = ..` with d a mapping: a key is added while d is iterated
+                self.raise_exc(frame, "RuntimeError", st, env, base.taint > 0, reason="item stored under a new key into a mapping that is being iterated (dictionary changed size during iteration)")
             if k.kof is not None and k.kof == norm(target.value):
                 self.event("mut", frame, st, how="subscript-store", target=base.short(), org=sorted(base.org), types=sorted(base.types))
                 self.record_store(frame, st, base, v)
